@@ -260,7 +260,7 @@ func cmdCheck(args []string) int {
 		sort.Strings(names)
 		var dead []string
 		for _, o := range obls {
-			if o.Verdict == "cover-failed" && strings.Contains(o.Name, ".cover.ret") {
+			if o.Verdict == "cover-failed" && (strings.Contains(o.Name, ".cover.ret") || strings.Contains(o.Name, ".cover.site.")) {
 				dead = append(dead, o.Name)
 			}
 		}
